@@ -84,7 +84,7 @@ pub fn oracle<T: Scalar>(kind: Kind, n: usize, h: &[T], hf: &[f64], v: &Dyn<T>, 
 pub fn run(ctx: &Ctx) -> CheckOutput {
     let quick = ctx.tier == Tier::Quick;
     let n_max = if quick { 6 } else { 10 };
-    let cap = if quick { 150_000 } else { 2_000_000 };
+    let cap = if quick { 150_000 } else { 1_000_000 };
     let mut jobs: Vec<Job> = vec![];
     for kind in VIEWS {
         for n in 1..=n_max {
